@@ -649,6 +649,23 @@ def model_requests(case, real):
         except Exception as ex:  # noqa
             exp = [Atom('err'), Atom(exc_name(ex))]
         out.append(('sanitize_css', proto.line(Atom('C06'), Atom('css'), cfgw, case['text']), exp))
+        # the helpers one by one (wave 4): escape decoding, comment removal (on the text as given and
+        # on the decoded text), is_safe_css on the pieces the loop of sanitize_css would hand it
+        def call(f, *a):
+            try:
+                return [Atom('ok'), str(f(*a))]
+            except Exception as ex:  # noqa
+                return [Atom('err'), Atom(exc_name(ex))]
+        un = call(san._replace_unicode_escapes, case['text'])
+        out.append(('_replace_unicode_escapes', proto.line(Atom('C06'), Atom('unesc'), case['text']), un))
+        for t in [case['text']] + ([un[1]] if un[0] == 'ok' and un[1] != case['text'] else []):
+            out.append(('_strip_css_comments', proto.line(Atom('C06'), Atom('nocomm'), t), str(san._strip_css_comments(t))))
+        if un[0] == 'ok':
+            pieces = [d for d in san._strip_css_comments(un[1]).split(';') if ':' in d][:3]
+            for d in pieces:
+                pn, v = d.strip().split(':', 1)
+                pn, v = pn.strip().lower(), v.strip()
+                out.append(('is_safe_css', proto.line(Atom('C06'), Atom('propok'), cfgw, pn, v), B(bool(san.is_safe_css(pn, v)))))
         out.append(('spec-cssdecode', proto.line(Atom('C06'), Atom('cssdecode'), case['text']), css_decode(case['text'])))
         out.append(('spec-cssok', proto.line(Atom('C06'), Atom('cssok'), r['safe_schemes'], case['text']),
                     B(not css_problems(case['text'], r['safe_schemes']))))
@@ -668,6 +685,15 @@ def model_requests(case, real):
         except Exception as ex:  # noqa
             exp = [Atom('err'), Atom(exc_name(ex))]
         out.append(('stripentities', proto.line(Atom('C06'), Atom('ent'), case['text']), exp))
+        # the decoding loop of the attribute loop by itself: the value of a kept attribute
+        from genshi.core import Attrs, QName, START
+        from genshi.filters.html import HTMLSanitizer
+        try:
+            evs = list(HTMLSanitizer()(iter([(START, (QName('p'), Attrs([(QName('title'), case['text'])])), (None, 1, 0))])))
+            exp2 = [Atom('ok'), str(evs[0][1][1].get('title'))]
+        except Exception as ex:  # noqa
+            exp2 = [Atom('err'), Atom(exc_name(ex))]
+        out.append(('decode-loop', proto.line(Atom('C06'), Atom('refs'), case['text']), exp2))
     return out
 
 
